@@ -645,6 +645,11 @@ def gen_cli(tier, r):
                     break
         eff = mask if (mask or pk != "-") else 1
         add("sieve", args2, f"exp=sieve:{a}:{b}:{eff}:{pk}:{1 if quiet else 0}")
+    # printing with an explicit thread count over an interval long enough for several worker pieces (>= 2e7): the output
+    # must still be ascending (main.cpp forces one thread when printing)
+    for a, w, k, th in ([(0, 22000000, 1, 4)] if q else [(0, 22000000, 1, 4), (10**7, 31000000, 2, 2), (5, 40000000, 3, 8)]):
+        add("print-threads", [str(a), str(a + w), f"--print={k}", r.choice(["-t", "--threads"]), str(th)] + r.choice([[], ["-q"]]),
+            f"exp=sieve:{a}:{a + w}:0:{k - 1}:1")
     # nth prime
     for i in range(40 if q else 400):
         n = r.choice([0, 1, 2, 10, 100, 1000, r.randrange(1, 5000)])
